@@ -54,7 +54,7 @@ class HistoryRunner:
         if sig in self.reported:
             return
         self.reported.add(sig)
-        hist = [{k: v for k, v in h.items() if k not in ('reason',)} for h in (self.fz.history[-25:] if self.fz else [])]
+        hist = [{k: v for k, v in h.items() if k not in ('reason',)} for h in (self.fz.history[-int(__import__('os').environ.get('VERIF_HISTORY_TAIL', '25')):] if self.fz else [])]
         self.ctx.violation(key, what, {'detail': witness, 'current_op': self.cur_op, 'current_op_name': getattr(self.fz, 'current', None), 'n_ops_before': len(self.fz.history) if self.fz else 0, 'history_tail': hist})
 
     def run_case(self, i, rng: random.Random):
